@@ -232,13 +232,28 @@ fn run_history(args: &Args, hist: u64, seed: u64, n_ops: u64, out: &Mutex<Out>) 
     // scripted prelude in a quarter of the histories: a complete key roll of the leaf "d" (whose class name
     // is mapped in every second history), so that the revocation path is always exercised
     if hist % 4 == 1 || hist % 4 == 2 {
-        let steps: Vec<(&str, Box<dyn Fn(&Sys) -> Result<(), String>>)> = vec![
+        let mut steps: Vec<(&str, Box<dyn Fn(&Sys) -> Result<(), String>>)> = vec![
             ("keyroll_init", Box::new(|s| s.keyroll_init("d").map_err(|e| e.to_string()))),
             ("sync_parent", Box::new(|s| s.sync_parent("d", "a").map(|_| ()).map_err(|e| e.to_string()))),
             ("sync_parent", Box::new(|s| s.sync_parent("d", "a").map(|_| ()).map_err(|e| e.to_string()))),
-            ("keyroll_activate", Box::new(|s| s.keyroll_activate("d").map_err(|e| e.to_string()))),
-            ("sync_parent", Box::new(|s| s.sync_parent("d", "a").map(|_| ()).map_err(|e| e.to_string()))),
         ];
+        if hist % 4 == 2 {
+            // the parent changes the entitlement while the new key is staged: both keys must get their own
+            // re-issued certificate (two CertificateReceived events in one sync)
+            steps.push(("entitlement_grow_while_staged", Box::new(|s| s.update_child_resources("a", "d", atoms_to_resources(0x70)).map_err(|e| e.to_string()))));
+            steps.push(("sync_parent", Box::new(|s| s.sync_parent("d", "a").map(|_| ()).map_err(|e| e.to_string()))));
+            steps.push(("sync_parent", Box::new(|s| s.sync_parent("d", "a").map(|_| ()).map_err(|e| e.to_string()))));
+        }
+        steps.push(("keyroll_activate", Box::new(|s| s.keyroll_activate("d").map_err(|e| e.to_string()))));
+        if hist % 4 == 2 {
+            // ... and shrinks it back while the old key awaits revocation
+            steps.push(("entitlement_shrink_while_old", Box::new(|s| s.update_child_resources("a", "d", atoms_to_resources(0x30)).map_err(|e| e.to_string()))));
+        }
+        steps.push(("sync_parent", Box::new(|s| s.sync_parent("d", "a").map(|_| ()).map_err(|e| e.to_string()))));
+        if hist % 4 == 2 {
+            steps.push(("sync_parent", Box::new(|s| s.sync_parent("d", "a").map(|_| ()).map_err(|e| e.to_string()))));
+            steps.push(("sync_parent", Box::new(|s| s.sync_parent("d", "a").map(|_| ()).map_err(|e| e.to_string()))));
+        }
         for (name, step) in steps {
             let before = snapshot(&sys);
             let _ = step(&sys);
